@@ -235,6 +235,8 @@ def concrete_monitor(trace, native):
         for o in outs:
             if o[1] == 'Requested' and o[0] not in deps:
                 viol.add('requested_non_dependency')
+            if o[1] in ('Ok', 'Invalidated') and o[3] is not None and o[3] != me:
+                viol.add('reports_on_another_target')
     if not trace['watch'] and nspawn > 1:
         viol.add('twice')
     # the actor returned (its Child was dropped) while the process it had spawned was still running
